@@ -3,10 +3,11 @@
 # with `git -C /repo worktree add --detach /tmp/pristine HEAD`), run the check against that tree (obligations and native part), undo.
 # Development aid only: registered commands always read /repo.
 p="$1"; prop="$2"; shift 2
+S="${SCRATCH:-/tmp/pristine}"      # SCRATCH=/tmp/other-worktree: a second scratch tree, when the first one is busy
 [ -d "$p" ] && p="$p/patch.diff"
-git -C /tmp/pristine checkout -q -- . && git -C /tmp/pristine apply "$(realpath "$p")" || { echo "PATCH FAILED"; exit 9; }
+git -C "$S" checkout -q -- . && git -C "$S" apply "$(realpath "$p")" || { echo "PATCH FAILED"; exit 9; }
 mkdir -p /tmp/dev-evidence
-EMSARRAY_SRC=/tmp/pristine/src PYVC_EVIDENCE_DIR=/tmp/dev-evidence "$(dirname "$0")/../check" "$prop" "$@"
+EMSARRAY_SRC="$S/src" PYVC_EVIDENCE_DIR="${PYVC_EVIDENCE_DIR:-/tmp/dev-evidence}" "$(dirname "$0")/../check" "$prop" "$@"
 rc=$?
-git -C /tmp/pristine checkout -q -- .
+git -C "$S" checkout -q -- .
 exit $rc
